@@ -299,6 +299,17 @@ where
             return Err(Error::OpenedFileAsDir);
         }
 
+        // A damaged entry can name a cluster that is not on the volume
+        match &data.open_volumes[volume_idx].volume_type {
+            VolumeType::Fat(fat) => {
+                if dir_entry.cluster != ClusterId::ROOT_DIR
+                    && (dir_entry.cluster.0 < 2 || dir_entry.cluster.0 - 2 >= fat.cluster_count)
+                {
+                    return Err(Error::BadCluster);
+                }
+            }
+        }
+
         // We don't check if the directory is already open - directories hold
         // no cached state and so opening a directory twice is allowable.
 
